@@ -27,7 +27,7 @@ def run(run):
     F = abs(sum(face[i][0] * face[(i + 1) % n5][1] - face[(i + 1) % n5][0] * face[i][1] for i in range(n5))) / 2
     K = 4 * math.pi / (12 * F)
     probes = []
-    n = 1500 if quick else 150000
+    n = run.n(1500, 150000)
     while len(probes) < n:
         m = rng.random()
         size = 10 ** rng.uniform(-5, -3)
